@@ -364,6 +364,113 @@ impl Prop for Histories {
     }
 }
 
+// ------------------------------------------------- the book at the UCI boundary, odd histories
+
+/// The book answer of `go` must be legal in the engine's CURRENT position also after command
+/// histories in which a position command was rejected half-way (bad move token): the position the
+/// engine says it is at (`.state`) and the position its book move belongs to must be the same.
+#[derive(Debug, Clone, Serialize, Deserialize)]
+pub struct UciBookCase {
+    /// first, accepted position command: a book line
+    pub first: Vec<u16>,
+    /// second command: 0 = startpos, 1.. = a FEN from the pool (late positions with counters 0 1 among them)
+    pub base: u8,
+    pub good_moves: Vec<u16>,
+    /// 0 = no bad token (accepted), else which
+    pub bad: u8,
+}
+
+const BAD_MOVE_TOKENS: [&str; 8] = ["e2e5", "a1a8", "e7e5x", "d7d5x", "0000", "e2", "h9h8", "e1g1"];
+
+pub struct UciBook;
+
+impl Prop for UciBook {
+    type Case = UciBookCase;
+    fn name(&self) -> &'static str {
+        "book_answers_at_the_uci_boundary"
+    }
+    fn parallelism(&self, ctx: &Ctx) -> usize {
+        ctx.threads.min(8)
+    }
+    fn max_shrink_iters(&self) -> u32 {
+        40
+    }
+    fn strategy(&self, _: &Ctx) -> BoxedStrategy<UciBookCase> {
+        (prop::collection::vec(any::<u16>(), 0..8), 0u8..6, prop::collection::vec(any::<u16>(), 0..4), prop_oneof![1 => Just(0u8), 3 => 1u8..=8])
+            .prop_map(|(first, base, good_moves, bad)| UciBookCase { first, base, good_moves, bad })
+            .boxed()
+    }
+    fn test(&self, _: &Ctx, case: &UciBookCase, loc: &mut Local) -> Result<(), String> {
+        use crate::procdrv::{Line, Uci};
+        use std::time::Duration;
+        let (_, text1) = super::c07::resolve(&super::c07::PosSpec::Startpos(0, case.first.clone()));
+        let bases = [
+            "startpos".to_string(),
+            "fen 8/8/4k3/8/8/4K3/4P3/8 w - - 0 1".to_string(),
+            "fen rnbqkbnr/pppp1ppp/8/4p3/4P3/8/PPPP1PPP/RNBQKBNR w KQkq - 0 1".to_string(),
+            "fen rnbqkbnr/pppppppp/8/8/8/8/PPPPPPPP/RNBQKBNR b KQkq - 0 1".to_string(),
+            "fen r1bqkbnr/pppp1ppp/2n5/4p3/4P3/5N2/PPPP1PPP/RNBQKB1R w KQkq - 2 3".to_string(),
+            "fen 8/8/8/8/8/2K5/7R/k7 w - - 0 1".to_string(),
+        ];
+        let base = &bases[case.base as usize % bases.len()];
+        let mut p = if base == "startpos" { Pos::startpos() } else { Pos::from_fen(&base[4..]).unwrap() };
+        let mut toks: Vec<String> = vec![];
+        for k in case.good_moves.iter() {
+            let legal = p.legal();
+            if legal.is_empty() {
+                break;
+            }
+            let (m, n) = crate::gen::choose(&p, &legal, *k).clone();
+            toks.push(m.lan());
+            p = n;
+        }
+        if case.bad > 0 {
+            toks.push(BAD_MOVE_TOKENS[(case.bad as usize - 1) % BAD_MOVE_TOKENS.len()].to_string());
+        }
+        let text2 = if toks.is_empty() { format!("position {}", base) } else { format!("position {} moves {}", base, toks.join(" ")) };
+        let mut u = Uci::spawn()?;
+        let wait = Duration::from_secs(60);
+        u.send(&text1);
+        u.send(&text2);
+        u.send("isready");
+        if u.wait_out(wait, "readyok").is_none() {
+            return Err(format!("no readyok after the position commands\n{}", u.transcript()));
+        }
+        u.send(".state");
+        let got = u.wait_for(Duration::from_secs(30), |l| matches!(l, Line::Err(s) if s.trim().split(' ').count() == 6 && s.contains('/')));
+        let Some(Line::Err(fen)) = got.map(|i| u.log[i].clone()) else { return Err(format!(".state printed no position\n{}", u.transcript())) };
+        let Some(cur) = Pos::from_fen(fen.trim()) else { return Err(format!(".state printed an unreadable position '{}'", fen.trim())) };
+        loc.eval();
+        if !cur.is_legal_position() || !cur.has_legal_move() {
+            loc.class("uci_book:current_position_without_moves");
+            return Ok(());
+        }
+        let mark = u.log.len();
+        u.send("go depth 1 movetime 600000");
+        if u.wait_out_prefix(Duration::from_secs(120), "bestmove").is_none() {
+            return Err(format!("go was not answered\n{}", u.transcript()));
+        }
+        let lines: Vec<String> = u.log[mark..].iter().filter_map(|l| if let Line::Out(s) = l { Some(s.clone()) } else { None }).collect();
+        let best = lines.iter().find(|l| l.starts_with("bestmove ")).map(|l| l[9..].trim().to_string()).unwrap_or_default();
+        let from_book = lines.iter().any(|l| l.starts_with("info string book move"));
+        if !cur.legal().iter().any(|(m, _)| m.lan() == best) {
+            return Err(format!(
+                "after '{}' and '{}' the engine says (.state) it is at '{}', and answers go with 'bestmove {}'{}, which is not a legal move there\n{}",
+                text1, text2, cur.fen(), best, if from_book { " (announced as a book move)" } else { "" }, u.transcript()
+            ));
+        }
+        loc.class(if from_book { "uci_book:answered_from_the_book" } else { "uci_book:answered_by_search" });
+        loc.class(if case.bad > 0 { "uci_book:second_position_command_had_a_bad_token" } else { "uci_book:second_position_command_accepted" });
+        if from_book || case.bad > 0 {
+            loc.nontrivial(&(text1.clone(), text2.clone()));
+        }
+        loc.sample(|| json!({"first": text1, "second": text2, "state": cur.fen(), "bestmove": best, "from_book": from_book}));
+        u.send("quit");
+        let _ = u.wait_exit(Duration::from_secs(30));
+        Ok(())
+    }
+}
+
 pub fn plan(ctx: &Ctx) -> Plan {
     let t = ctx.tier;
     Plan {
@@ -371,6 +478,7 @@ pub fn plan(ctx: &Ctx) -> Plan {
             (Box::new(Recorded), 1),
             (Box::new(Variants), t.pick(400_000, 8_000_000)),
             (Box::new(Histories), t.pick(150_000, 3_000_000)),
+            (Box::new(UciBook), t.pick(96, 3_000)),
         ],
         rule: "an independent PGN reader and the oracle's SAN reader replay the first ten plies of all games of all files \
                in book/ (game count cross-checked against the [Event tags) and build position -> set of played moves, \
